@@ -11,7 +11,8 @@ from ..runner import Divergence, Driver, Env, Outcome, Violation, diff_streams
 
 THEOREMS = ["C14_reload_drops_all_timers", "C14_refuted_retry", "C14_refuted_waiter_timeout", "C14_refuted_retry_restart",
             "C14_refuted_retry_resume", "C14_refuted_waiter_timeout_restart", "C14_retry_lost_forever",
-            "C14_waiter_timeout_lost_forever", "C14_partial"]
+            "C14_waiter_timeout_lost_forever", "C14_partial", "C14_next_wakeup_is_earliest", "C14_timer_pops_exactly_the_due",
+            "C14_every_timer_fires_when_due", "C14_timer_heap_source_shape"]
 LEAN_TARGETS = ["WfProps.C14"]
 EXPLANATION = (
     "Model WfModel/Timers.lean: one handler of the in-process server stack = persisted tick log + handler row (status, "
@@ -40,7 +41,15 @@ EXPLANATION = (
     "by a control loop exactly at its due time and take effect (step re-entered with that retry number / TimeoutError raised), "
     "classified by what happened while it was pending (no_release / after_idle_release / after_restart) and by "
     "lost / early / late / no_effect / spurious; the four lost-after-cut signatures are the known findings (witnesses "
-    "replayed on every run with the F13 numbers: wait_fixed(0.5), idle_timeout=0.1), anything else is a VIOLATION."
+    "replayed on every run with the F13 numbers: wait_fixed(0.5), idle_timeout=0.1), anything else is a VIOLATION. "
+    "Inside one incarnation: stream 'multi' arms three to five timers at once (waiter timeouts and retry delays, distinct or tying due times, "
+    "optionally the workflow timeout) in a random push order (order of the fan-out / scheduler-opened gates), with idle_timeout just above / at the "
+    "largest gap between consecutive due times, never, or around one delay; a timer that was already due when the run left memory is classified "
+    "<kind>_overdue_at_<cut> (the loop slept past it: not one of the known losses, whose timers were still in the future at the cut). Lean: "
+    "C14_next_wakeup_is_earliest / C14_timer_pops_exactly_the_due / C14_every_timer_fires_when_due (a loop that sleeps until Runner.nextWakeup and "
+    "pops delivers every pending timer exactly when due, whatever the arming order); the model keeps the heap as a bag, which "
+    "C14_timer_heap_source_shape justifies (scheduled_wakeups is changed through heapq.heappush / heappop only, re-read from control_loop.py), and the "
+    "op `wake` compares the real runner's next_wakeup_timeout with Runner.nextWakeup at every quiescent point."
 )
 ASSUMPTIONS = suite.ENGINE_ASSUMPTIONS + [
     "process stop is modelled at quiescent points of the event loop (tick buffer drained); a stop between a tick's on_tick and its commands is property C13's subject",
@@ -112,6 +121,67 @@ def gen_timer_spec(rng: random.Random) -> tuple[str, dict]:
     return fam, spec
 
 
+def gen_multi_timer_spec(rng: random.Random) -> dict:
+    """THREE TO FIVE timers pending at once in one run: the start step fans one event out to n branches, each of which
+    arms one timer -- a wait_for_event(timeout=d) that nobody answers, or a failing attempt whose retry policy asks for the
+    delay d (sometimes two delays in a row) -- and a collector gathers the n results.  The delays are distinct (sometimes two
+    of them tie); the ORDER in which the timers are pushed onto the runner's heap is random: the order of the start step's
+    sends, or, when the branches are gated, the order in which the scheduler opens the gates (with time possibly passing in
+    between).  Optionally the workflow timeout is a further entry (pushed first, usually the latest)."""
+    n = rng.choice([3, 3, 3, 4, 4, 5])
+    ds = rng.sample([2, 3, 4, 5, 6, 7, 8, 9, 11, 13, 15, 18, 22, 27], n)
+    if rng.random() < 0.25:
+        ds[1] = ds[0]  # two timers due together
+    gated = rng.random() < 0.4
+    names = [f"s{i:02d}" for i in rng.sample(range(1, 12), n)]
+    branches = []
+    for i, (nm, d) in enumerate(zip(names, ds)):
+        pre = [["gate"]] if gated and rng.random() < 0.8 else []
+        if rng.random() < 0.6:
+            wid = rng.choice([None, None, f"w{i + 1:02d}", "per"])
+            sc = pre + [["wait", rng.choice([3, 11]), rng.choice([None, None, 1]), d, wid, None, "swallow" if rng.random() < 0.9 else "raise"], ["ret", "10"]]
+            pol = None
+        else:
+            r = rng.random()
+            nfail = 1
+            if r < 0.55:
+                pol = {"kind": "attempts", "n": rng.randint(2, 3), "wait": d}
+            elif r < 0.75:
+                pol = {"kind": "legacy", "n": rng.randint(2, 3), "wait": d}
+            else:
+                nfail = 2  # a second delay is pushed when the first one has fired (onto whatever the pop left behind)
+                pol = {"kind": "chain", "n": 4, "waits": [d, rng.choice([1, 2, 4, 6])]}
+            sc = pre + [["fail_until", nfail, rng.randint(1, 9)], ["ret", "10"]]
+        branches.append({"name": nm, "accepts": [5 + i], "nw": 1, "retry": pol, "script": sc})
+    sends = [["send", 5 + i, None, rng.choice([None, 1, 2])] for i in range(n)]
+    rng.shuffle(sends)
+    start = {"name": "s00", "accepts": [0], "nw": 1, "retry": None, "script": sends + [["ret", "none"]]}
+    coll = {"name": "s20", "accepts": [10], "nw": 1, "retry": None, "script": [["collect", [10] * n], ["ret", "stop"]]}
+    steps = [start] + branches + [coll]
+    rng.shuffle(steps)
+    spec: dict[str, Any] = {"steps": steps, "externals": []}
+    r = rng.random()
+    if r < 0.2:
+        spec["timeout"] = max(ds) + rng.choice([3, 10, 40])
+    elif r < 0.3:
+        spec["timeout"] = rng.choice([45, 1000])
+    elif r < 0.35:
+        spec["timeout"] = sorted(ds)[-1] - 1  # the run ends (workflow timeout) with the last timer still pending
+    return spec
+
+
+def gen_multi_conf(rng: random.Random, spec: dict) -> dict:
+    """idle_timeout relative to the GAPS between consecutive due times (all timers armed at about the same instant): just above
+    the largest gap (a run that delivers every timer on time re-announces idleness at every delivery and is never released
+    with a timer pending), equal to it, never, or around one of the delays (the known losses)"""
+    ds = sorted(set(_delays(spec) + ([int(spec["timeout"])] if spec.get("timeout") else [])))
+    gaps = [b - a for a, b in zip([0] + ds, ds)] or [3]
+    g = max(gaps)
+    d = rng.choice(ds or [3])
+    idle = rng.choice([g + 1, g + 1, g + 1, g + 2, g, 10 ** 6, 10 ** 6, 10 ** 6, max(1, d - 1), d + 1, 1])
+    return {"idle_timeout": int(idle), "crashes": rng.choice([0, 0, 0, 0, 1]), "crash_pct": 10, "horizon": 300}
+
+
 def gen_conf(rng: random.Random, spec: dict, cut: bool) -> dict:
     if not cut:
         return {"idle_timeout": 10 ** 6, "crashes": 0, "horizon": 300}
@@ -142,6 +212,21 @@ def _integral(spec: dict, conf: dict) -> bool:
     return all(ok(v) for v in vals)
 
 
+def _pending_shape(tr: Any, exps: list) -> tuple[int, str]:
+    """(largest number of retry / waiter timers pending at once, how they were armed: "due_order" when every timer armed
+    while others were pending was due after all of them, else "out_of_due_order")"""
+    last = len(tr.trace.calls)
+    iv = sorted(((e.created_idx, e.delivered_idx if e.delivered_idx is not None else (e.moot_idx if e.moot_idx is not None else last), e.due)
+                 for e in exps), key=lambda x: x[0])
+    peak, shape = 0, "due_order"
+    for i, (c, _end, due) in enumerate(iv):
+        pend = [x for x in iv[:i] if x[1] > c]
+        peak = max(peak, len(pend) + 1)
+        if any(x[2] > due for x in pend):
+            shape = "out_of_due_order"
+    return peak, shape
+
+
 class _Batch:
     def __init__(self) -> None:
         self.ops: list[str] = []
@@ -169,6 +254,10 @@ def _one(out: Outcome, batch: _Batch, stream: str, fam: str, spec: dict, conf: d
     for e in exps:
         out.count(f"{stream}:timer:{e.kind}:" + ("delivered" if e.delivered_t is not None else ("moot" if e.moot else "undelivered")))
     out.count(f"{stream}:reloads", max(0, len(tr.inits) - 1))
+    peak, shape = _pending_shape(tr, exps)
+    out.count(f"{stream}:peak_pending_timers:{min(peak, 5)}{'+' if peak >= 5 else ''}")
+    if peak >= 3:
+        out.count(f"{stream}:three_or_more_pending:{shape}")
     if exps or cs:
         out.nontrivial((json.dumps(spec, sort_keys=True), json.dumps(conf, sort_keys=True), tuple(tr.actions)))
     vs = timers.mon_timers(tr, case)
@@ -238,7 +327,9 @@ def run(env: Env) -> Outcome:
     out = Outcome()
     out.rule = ("witnesses (F13 numbers and integral variants) + generated retry / wait_for_event / fan-out workflows on the real server stack; "
                 "stream 'norelease': idle_timeout 1e6, no process stop (monitors must be silent); stream 'cut': idle_timeout = a pending delay -1/0/+1, 1, 2x or 1000, "
-                "0-2 process stops at random quiescent points, service sends; non-trivial = a run with at least one expected timer or one cut; "
+                "0-2 process stops at random quiescent points, service sends; stream 'multi': 3-5 timers (wait_for_event timeouts / retry delays from 2..27 s, "
+                "25% with a tie, 35% with a workflow timeout) pending at once, armed in random order, idle_timeout = largest gap between consecutive due times +1/+2/+0, "
+                "1e6, a delay -1/+1 or 1, one process stop in 20% of the runs; non-trivial = a run with at least one expected timer or one cut; "
                 "distinct by (spec, conf, schedule)")
     rng = random.Random(env.rng.randrange(1 << 30))
     batch = _Batch()
@@ -258,6 +349,12 @@ def run(env: Env) -> Outcome:
     for _ in range(env.budget(420, 10000)):
         fam, spec = gen_timer_spec(rng)
         _one(out, batch, "cut", fam, spec, gen_conf(rng, spec, cut=True), rng.randrange(1 << 30), None)
+        if len(batch.ops) > 60000:
+            _flush(out, batch)
+            batch = _Batch()
+    for _ in range(env.budget(100, 2500)):
+        spec = gen_multi_timer_spec(rng)
+        _one(out, batch, "multi", "multi", spec, gen_multi_conf(rng, spec), rng.randrange(1 << 30), None)
         if len(batch.ops) > 60000:
             _flush(out, batch)
             batch = _Batch()
